@@ -10,7 +10,7 @@ from ..core import Ctx
 from ..model import dotted, norm, walk_no_nested
 from . import nbk
 from .common import assigned_value, expand_locals, prog
-from .kernels import concrete_dissimilarities, extract_d, extract_d_mat
+from .kernels import SharedKernel, concrete_dissimilarities, extract_d, extract_d_mat
 
 TIME_ATTRS = {"start", "end", "duration", "bound_inf", "bound_sup", "bounds", "minTime", "maxTime"}
 
@@ -58,6 +58,10 @@ def run(ctx: Ctx):
             seen.add((fn.qualname, ext.__name__))
             try:
                 k = ext(M, c)
+            except SharedKernel as e:
+                ctx.bad("R-C09-2", fn, None, f"{c.name}: {e} (a second instance built with c*delta_empty keeps the first one's scale)", key=f"extract:{c.name}",
+                        construct=f"{c.name}.d_mat Δ-homogeneity")
+                continue
             except Unsupported as e:
                 ctx.undecided("R-C09-1", fn, None, f"{c.name}: formula extraction failed: {e}", key=f"extract:{c.name}")
                 continue
